@@ -41,6 +41,19 @@ Definition entry (j : json) : json :=
         end
       | _, _, _ => JObj [("err", JStr "request")]
       end
+    else if String.eqb fn "mod_const_binary" then
+      (* integer path (ModEvalModel), else the float fallback of lowerConstantBinaryExpr *)
+      match entry_with flocq_float_ops j with
+      | JObj (("r", JNull) :: rest) =>
+        match match field "e" j with Some e => expr_of_json 64 e | None => None end with
+        | Some e => match mod_const_float_fallback e with
+                    | Some b => JObj (("r", json_of_lit (LF32 b)) :: ("bits", JNum b) :: ("kind", JStr "float") :: ("float_fallback", JBool true) :: rest)
+                    | None => JObj (("r", JNull) :: rest)
+                    end
+        | None => JObj (("r", JNull) :: rest)
+        end
+      | a => a
+      end
     else entry_with flocq_float_ops j
   | None => JObj [("err", JStr "request")]
   end.
